@@ -37,6 +37,8 @@ func (f *Formatter) formatExpression(expr ast.Expression) *ChunkBuffer {
 		buf.Write(f.formatFunctionCallExpression(t), Token)
 	case *ast.IfExpression:
 		buf.Write(f.formatIfExpression(t), Token)
+	case *ast.PostfixExpression:
+		buf.Write(f.formatPostfixExpression(t), Token)
 
 	// Combined expressions return *ChunkBuffer to merge
 	case *ast.PrefixExpression:
@@ -126,6 +128,11 @@ func (f *Formatter) formatInfixExpression(expr *ast.InfixExpression) *ChunkBuffe
 	buf.Append(f.formatExpression(expr.Right))
 
 	return buf
+}
+
+// Format postfix expression like `50%`
+func (f *Formatter) formatPostfixExpression(expr *ast.PostfixExpression) string {
+	return f.formatExpression(expr.Left).String() + expr.Operator
 }
 
 // Format prefix expression like `if(req.http.Foo, "foo", "bar")`
